@@ -300,11 +300,11 @@ Definition accounts_oracle (accounts : list bytes) (req resp : json) : bool :=
 Inductive case :=
 (* process start: configured chain id (< 0: discover), backend table, did the process come up?, frames seen *)
 | CStart (configured : Z) (tbl : list (dframe * dreply)) (started : bool) (frames : list dframe)
-(* one POST: configured chain id, backend table (incl. the net_version entry when discovered), the
-   wallet's addresses, the leading bytes of the body (through the first non-space byte), the tree the
+(* one POST: configured chain id, the backend's answers while the process started (the net_version
+   entry when discovered), the backend table of this case, the wallet's addresses, the leading bytes of the body (through the first non-space byte), the tree the
    body denotes (None: not JSON), the forced completion order, and what was observed: status (0 = no
    HTTP reply), reply tree (None = not JSON / none), frames in arrival order *)
-| CReq (configured : Z) (tbl : list (dframe * dreply)) (accounts : list bdsl) (body_prefix : bdsl)
+| CReq (configured : Z) (stbl : list (dframe * dreply)) (tbl : list (dframe * dreply)) (accounts : list bdsl) (body_prefix : bdsl)
        (tree : option djson) (order : list nat)
        (status : N) (reply : option djson) (frames : list dframe).
 
@@ -323,13 +323,14 @@ Definition check_case (c : case) : N :=
            | Err _, false => 0
            | _, _ => 7
            end
-  | CReq configured tbl accts prefix tree order status reply frames =>
+  | CReq configured stbl tbl accts prefix tree order status reply frames =>
+      let stb := map (fun e => (fx (fst e), rx (snd e))) stbl in
       let tb := map (fun e => (fx (fst e), rx (snd e))) tbl in
       let accounts := map bexpand accts in
       let obs := map fx frames in
       let req := option_map jx tree in
       let rep := option_map jx reply in
-      match fst (Start parse_int_run (backend_table tb) configured) with
+      match fst (Start parse_int_run (backend_table stb) configured) with
       | Ok chain =>
           (* oracles on the implementation alone *)
           if (status =? 0)%N then 16
@@ -376,3 +377,28 @@ Fixpoint mismatches_go (i : N) (l : list case) : list (N * N) :=
               if (r =? 0)%N then mismatches_go (i + 1) t else (i, r) :: mismatches_go (i + 1) t
   end.
 Definition mismatches (l : list case) : list (N * N) := firstn 20 (mismatches_go 0 l).
+
+(* ---------- diagnosis helper (development only): indices of the reply members on which model and
+   implementation differ, and the model's status ---------- *)
+Definition diag (c : case) : N * list nat :=
+  match c with
+  | CStart _ _ _ _ => (0%N, [])
+  | CReq configured stbl tbl accts prefix tree order status reply frames =>
+      let stb := map (fun e => (fx (fst e), rx (snd e))) stbl in
+      let tb := map (fun e => (fx (fst e), rx (snd e))) tbl in
+      let accounts := map bexpand accts in
+      let obs := map fx frames in
+      let req := option_map jx tree in
+      match fst (Start parse_int_run (backend_table stb) configured) with
+      | Ok chain =>
+          match rpcHandler parse_int_run (fun _ => req) accounts (sign_run accounts (raws_of obs))
+                           (backend_table tb) chain (bexpand prefix) order, option_map jx reply with
+          | Ok (st, JArr ms, _), Some (JArr os) =>
+              (st, flat_map (fun p => if tree_match (fst (snd p)) (snd (snd p)) then [] else [fst p])
+                            (combine (seq 0 (length ms)) (combine ms os)))
+          | Ok (st, m, _), Some o => (st, if tree_match m o then [] else [0%nat])
+          | _, _ => (999%N, [])
+          end
+      | _ => (998%N, [])
+      end
+  end.
